@@ -31,6 +31,9 @@ type JApiCore struct {
 	// macro contains list of all project macros.
 	macro map[string]*directive.Directive
 
+	// macroNames contains the names of all project macros in the order of their definition.
+	macroNames []string
+
 	// directiveFunctions map between available directives and function which
 	// should be used for processing.
 	directiveFunctions map[directive.Enumeration]func(*directive.Directive) *jerr.JApiError
